@@ -53,7 +53,7 @@ deriving DecidableEq, Repr
 
 def StrItem.WF : StrItem → Bool
   | .plain c => c ≠ 34 && c ≠ 92 && c ≠ 10 && c ≠ 0
-  | .esc c => c ≠ 0
+  | .esc c => c ≠ 0 && c ≠ 10     -- an interpreted string never spans lines, escaped or not
 
 def StrItem.render : StrItem → Bytes
   | .plain c => [c]
